@@ -150,3 +150,32 @@ Example C08_example_priority :
                        mkpt [97] [122] 5; mkpt [97] [97] 0]) =
   [([97], [122]); ([97], [97]); ([97;58;58;120], [116]); ([97;45;98], [116])].
 Proof. vm_compute. reflexivity. Qed.
+
+(* ---- additions: group membership decided by the test's configured group ------------------
+   C08_group_inv counts the members of a group by the tag the queue attaches to a future in
+   progress ([r_grp]).  Proofs/FutureQueueGroups.v proves that tag equal to the group of the item
+   the future runs ([it_grp (r_item r)]) in every reachable state, so the bound holds for "the
+   tests of group k that are alive". *)
+From NextestModel Require Import Proofs.FutureQueueGroups.
+
+Theorem C08_group_tag_is_item_group :
+  forall gm grps items ops,
+    let res := fq_run (fq_new gm grps items) ops in
+    Forall (fun r => rgroup r = it_grp (r_item r)) (running (fst res)) /\
+    Forall (fun r => rgroup r = it_grp (r_item r)) (starts (snd res)).
+Proof. exact group_tag_is_item_group. Qed.
+Print Assumptions C08_group_tag_is_item_group.
+
+Theorem C08_group_limit_by_item_group :
+  forall gm grps items ops k m,
+    assoc_first k grps = Some m ->
+    item_group_load k m (running (fst (fq_run (fq_new gm grps items) ops))) <= m.
+Proof. exact c08_group_inv_by_item. Qed.
+Print Assumptions C08_group_limit_by_item_group.
+
+(* tests 1 and 2 are configured into group 7 (max-threads 2, weights 1): both counted *)
+Example C08_example_item_group_load :
+  let q := fst (fq_run (fq_new 4 [(7, 2)] [mkitem 0 1 None; mkitem 1 1 (Some 7); mkitem 2 1 (Some 7);
+                                          mkitem 3 1 (Some 7)]) [OpFill]) in
+  item_group_load 7 2 (running q) = 2 /\ map (fun r => it_id (r_item r)) (running q) = [0; 1; 2].
+Proof. vm_compute. split; reflexivity. Qed.
